@@ -156,6 +156,15 @@ def _helper_rec(facts, f, region, helper_names, names):
                 rec = [x for x in g.calls() if x.names & names]
                 if rec and any(x.bb in C.reach_after(g, x.bb) for x in rec):
                     return "helper %s loops over the children" % c.path.split("::")[-1]
+                # the adapter spelling: the helper folds / maps a closure that recurses over the iterator of children
+                for cl in facts.closures_of(g.path):
+                    if any(x.names & names for x in cl.calls()):
+                        ebg_ = ExprBuilder(g)
+                        for x in g.calls():
+                            if x.path.startswith("core::iter::traits::iterator::Iterator::") and \
+                                    x.path.rsplit("::", 1)[1] in ("try_fold", "fold", "for_each", "try_for_each", "map", "flat_map", "all", "any") and \
+                                    any(y.k == "closure" and y[1] == cl.path for a_ in x.args for y in walk(ebg_.operand(a_))):
+                                return "helper %s visits the children through %s" % (c.path.split("::")[-1], x.path.rsplit("::", 1)[1])
     return None
 
 
